@@ -50,7 +50,13 @@ def make_worker_case(index, rng, tier):
         # every connection slot held by an idle keep-alive client for longer than the timeout: the worker is idle, not hung
         n = rng.randrange(1, 3)
         sat = {"n": n, "keepalive": timeout + rng.choice([1, 2, 3])}
-    return {"family": "worker", "kind": kind, "timeout": timeout, "clients": clients, "threads": rng.randrange(1, 3), "saturate": sat,
+    term_at = None
+    if not sat and clients and rng.randrange(3) == 0:
+        # the worker is retired (TERM, as after HUP / TTOU) while requests shorter than the timeout are in flight: it stays a healthy
+        # worker until it exits and must keep its heartbeat up while it drains
+        c = rng.choice(clients)
+        term_at = round(c["t"] + rng.uniform(0.0, max(0.05, c["dur"])), 2)
+    return {"family": "worker", "kind": kind, "timeout": timeout, "clients": clients, "threads": rng.randrange(1, 3), "saturate": sat, "term_at": term_at,
             "keepalive": rng.choice([0, 2]), "buggify": {"pyticks": rng.randrange(3) == 0, "short_recv": rng.randrange(4) == 0, "spurious_select": rng.randrange(4) == 0}}
 
 
@@ -64,7 +70,7 @@ def run_worker(case, choices):
     T = case["timeout"]
     kind = case["kind"]
     sat = case.get("saturate")
-    w = W.WorkerWorld(sim, kind, {"timeout": T, "graceful_timeout": 2, "keepalive": sat["keepalive"] if sat else case["keepalive"],
+    w = W.WorkerWorld(sim, kind, {"timeout": T, "graceful_timeout": 2 if not case.get("term_at") else max(2, T + 1), "keepalive": sat["keepalive"] if sat else case["keepalive"],
                                   "threads": case["threads"] if not sat else max(case["threads"], 1),
                                   "worker_connections": (sat["n"] + case["threads"]) if sat else 10})
     p = w.start_worker()
@@ -91,15 +97,23 @@ def run_worker(case, choices):
     t_end = max([c["t"] + c["dur"] for c in case["clients"]] + [0.0]) + 3.0 * T + 2.0 + (sat["keepalive"] if sat else 0)
     ctx = lambda: "family=worker kind=%s timeout=%s (worker wait bound %s) threads=%d clients=%r t=%.2f" % (
         kind, T, T / 2.0, case["threads"], case["clients"], sim.now)
+    term_at = case.get("term_at")
+    if term_at is not None:
+        def fire():
+            if p.state == "running" and int(signal.SIGTERM) in p.handlers:
+                sim.fault("worker_retired_while_busy")
+                sim.kill(p.pid, int(signal.SIGTERM))
+        sim.after(term_at, fire)
     try:
         sim.run(until=lambda: sim.now >= t_end or p.state != "running")
         if sim.crash:
             raise W.HarnessError(sim.crash)
-        if p.state != "running":
+        if p.state != "running" and (term_at is None or sim.now < term_at):
             res.violate("C11:worker:%s:exited" % kind, "the worker exited (%r) by itself; boot_error=%r; %s" % (p.status, w.boot_error, ctx()))
         gaps = [b - a for a, b in zip(beats, beats[1:])]
+        end_t = sim.now if p.state == "running" else getattr(p, "exit_time", sim.now)
         if beats:
-            gaps.append(sim.now - beats[-1])
+            gaps.append(end_t - beats[-1])
         worst = max(gaps) if gaps else sim.now
         sim.probe("worker_side_runs")
         if worst >= T - 1e-6:
